@@ -10,7 +10,7 @@ CHECKS["C14"] = dict(
           "against a reference dispatcher (FIFO, every registered handler exactly once, priority first, deferred events once, "
           "after the awaited type, in deferral order); non-trivial = >=2 deferred events delivered or an unregister during "
           "dispatch. concurrency (-race): P producers x M events with a running consumer (no loss, per-producer order) and "
-          "overflow with the consumer paused (dropped ∪ remaining = pushed, only oldest dropped). distinct = hash of the case."),
+          "overflow with the consumer paused (dropped ∪ remaining = pushed, only oldest dropped). distinct = hash of the case. Wake-up (TestC14RaceWakeup, in the race unit): one producer adds ONE event at a time to a running loop and waits for its handler before the next (2000..6000 events per case, spin 0..1000 between them, capacity 1/2/100): every event is handled without the help of later events; an event still unhandled after 3 s that is handled right after a second event is added is a lost wake-up (a wall-clock bound, used only to tell apart asleep from slow: the second event decides)."),
     assumptions=["goroutine interleavings are sampled under the race detector, not enumerated",
                  "handler order inside the priority class / ordinary class is not specified by the property and not checked"],
 )
